@@ -28,6 +28,12 @@ TIERS = {
 
 def gen_large(rng):
     """Sizes well beyond the small cases: deep trees, many Fenwick levels, long histories; audited sparsely."""
+    if rng.random() < 0.15:
+        # a long chain of unions without a single read in between, then reads: union by rank must keep the forest shallow
+        n = rng.choice([1200, 2500, 4000])
+        ops = [["union", i + 1, i] if rng.random() < 0.9 else ["union", i, i + 1] for i in range(n - 1)]
+        ops += [["find", 0], ["connected", 0, n - 1], ["component_count"], ["find", n // 2]]
+        return {"kind": "uf", "n": n, "ops": ops, "sparse_audit": True}
     if rng.random() < 0.5:
         n = rng.choice([64, 100, 257, 500])
         ops = []
@@ -120,6 +126,8 @@ def generate(rng, tier):
                 ops.append(["find", idx()])
             elif x < 0.8:
                 ops.append(["connected", idx(), idx()])
+            elif x < 0.84:
+                ops.append(["consume_components"])  # the caller empties the sets it was handed (its own objects now)
             else:
                 ops.append([rng.choice(["component_count", "component_sizes", "get_components", "len"])])
         return {"kind": "uf", "n": n, "ops": ops}
@@ -256,6 +264,14 @@ def _exec_uf(case, o: Outcome):
             got = len(uf)
             if got != n:
                 o.violate(PROP, "refinement_broken", f"step {step}: len={got}, model {n}", target="UnionFind")
+        elif name == "consume_components":
+            comps = uf.get_components()
+            got = sorted(sorted(s) for s in comps)
+            for s in comps:
+                s.clear()  # e.g. used as pop-until-empty work lists; what was returned belongs to the caller
+            sizes = uf.component_sizes()
+            sizes.clear()
+            read_after_merge = read_after_merge or merged_before
         else:
             raise ValueError(name)
         o.trace.append([name, repr(got)])
